@@ -37,6 +37,12 @@ def log(*a):
 
 
 # ----------------------------------------------------------------------------- running workers
+# glibc serves small allocations from the per-thread cache without applying M_PERTURB and leaves heap pointers and a random
+# key in recycled chunks: with the cache off every allocation goes through the path that fills it with the plan's pattern, so a
+# read of uninitialised memory is deterministic (same value in the original run and in a fresh-process replay)
+WORKER_ENV = {"GLIBC_TUNABLES": "glibc.malloc.tcache_count=0"}
+
+
 def clip(err, head=5000, tail=3000):
     """sanitizer reports start with the error line and end with pages of shadow bytes: keep both ends"""
     if len(err) <= head + tail:
@@ -56,7 +62,7 @@ def run_chunk(exe, backend, variant, scenario, base, first, count, opts, samples
         for k, v in sorted(opts.items()):
             cmd += ["--opt", "%s=%s" % (k, v)]
         try:
-            p = subprocess.run(cmd, stdout=subprocess.PIPE, stderr=subprocess.PIPE, timeout=timeout, env=env)
+            p = subprocess.run(cmd, stdout=subprocess.PIPE, stderr=subprocess.PIPE, timeout=timeout, env=dict(env or os.environ, **WORKER_ENV))
             out, err, rc = p.stdout.decode(errors="replace"), p.stderr.decode(errors="replace"), p.returncode
         except subprocess.TimeoutExpired as e:
             out = (e.stdout or b"").decode(errors="replace")
@@ -147,7 +153,7 @@ def run_plan(exe, plan_text, backend, variant, timeout=600, wrapper=None):
         path = fh.name
     try:
         p = subprocess.run(list(wrapper or VALGRIND_IF(variant)) + [exe, "replay", "--plan", path, "--backend", backend, "--variant", variant], stdout=subprocess.PIPE,
-                           stderr=subprocess.PIPE, timeout=timeout)
+                           stderr=subprocess.PIPE, timeout=timeout, env=dict(os.environ, **WORKER_ENV))
         out = p.stdout.decode(errors="replace")
         rec = None
         for line in out.splitlines():
